@@ -1203,6 +1203,52 @@ func ruleCONC4(w *World) []Ob {
 			l.bad(fid, construct, p.InstrPos(a.instr), "field "+a.ref.String()+" of an object shared by concurrently running worker instances is written by worker code, and this "+kind+" happens without the object's mutex held: data race", "access")
 		}
 	}
+	// maps / slices reached through a shared object and modified by worker code
+	for fn := range ca.mi.multi {
+		fid := p.FuncID(fn)
+		if num[fid] == nil {
+			num[fid] = numbered{}
+		}
+		allInstrs(fn, func(in ssa.Instruction) {
+			var cont ssa.Value
+			what := ""
+			switch x := in.(type) {
+			case *ssa.MapUpdate:
+				cont, what = x.Map, "map update"
+			case *ssa.Store:
+				if ia, ok := x.Addr.(*ssa.IndexAddr); ok {
+					cont, what = ia.X, "element store"
+				}
+			case *ssa.Call:
+				if isBuiltinCall(x, "clear") || isBuiltinCall(x, "delete") {
+					cont, what = x.Common().Args[0], x.Common().Value.Name()
+				}
+			}
+			if cont == nil || !ca.mi.shared[cont] {
+				return
+			}
+			if _, isChan := cont.Type().Underlying().(*types.Chan); isChan {
+				return
+			}
+			// containers local to this call frame (made here) are not shared even if stored in a shared-looking value
+			switch resolve(cont).(type) {
+			case *ssa.MakeMap, *ssa.MakeSlice, *ssa.Alloc:
+				return
+			}
+			construct := num[fid].name(what + " on " + describeValue(cont))
+			obj := cont
+			if ld, ok := isLoad(stripConv(cont)); ok {
+				if fa, ok := ld.(*ssa.FieldAddr); ok {
+					obj = baseObject(fa)
+				}
+			}
+			if heldAt(obj, in) || (ca.locked[fn] && len(fn.Params) > 0 && sameVar(obj, fn.Params[0])) {
+				l.ok(fid, construct, p.InstrPos(in), "the owner's mutex is held", true, "access")
+			} else {
+				l.bad(fid, construct, p.InstrPos(in), "a map/slice reached through an object shared by concurrently running worker instances is modified without that object's mutex held: data race (and one root's data overwrites another's)", "access")
+			}
+		})
+	}
 	// spawner writes after the workers have started
 	for sp := range ca.mi.spawners {
 		allInstrs(sp, func(in ssa.Instruction) {
